@@ -1,7 +1,8 @@
 """Unit literals: literal values reach the SQL AST unchanged.
 
 Real code under contract:
-  prqlc/prqlc/src/sql/gen_expr.rs       translate_literal (arms for null / string / raw string / boolean / float / integer)
+  prqlc/prqlc/src/sql/gen_expr.rs       translate_literal (arms for null / string / raw string / boolean / float / integer);
+                                        expr_of_i64 (the numbers of LIMIT / OFFSET)
   prqlc/prqlc-parser/src/lexer/mod.rs   number(): tail of the `.map(|((int_part, frac_part), exp_part)| { .. })` closure that turns the digits into a Literal
 """
 import re
@@ -14,8 +15,8 @@ GEN_EXPR = "prqlc/prqlc/src/sql/gen_expr.rs"
 LEXER = "prqlc/prqlc-parser/src/lexer/mod.rs"
 LR = "prqlc/prqlc-parser/src/lexer/lr.rs"
 
-LABELS = ["TL1s", "TL1r", "TL1i", "TL1b", "TL1n", "TL1f", "LN1", "LN2", "LN3"]
-FUNCTIONS = ["translate_literal", "number_literal_slice"]
+LABELS = ["TL1s", "TL1r", "TL1i", "TL1b", "TL1n", "TL1f", "LN1", "LN2", "LN3", "EI1"]
+FUNCTIONS = ["translate_literal", "number_literal_slice", "expr_of_i64"]
 RLIMIT = 60
 
 ASSUMED = [
@@ -27,6 +28,9 @@ ASSUMED = [
     {"what": "date / time / interval literals are delegated to translate_other_literal (not under contract)", "keys": ["fn translate_other_literal"]},
     {"what": "str::parse::<i64> / ::<f64> are the uninterpreted partial functions as_i64 / as_f64 of the digit text", "keys": ["spec fn as_i64", "spec fn as_f64", "fn parse_i64", "fn parse_f64"]},
     {"what": "Context::dialect handler methods are unknown to the proof (any call on it is outside the dialect -> unconstrained)", "keys": ["struct Handler", "struct Context"]},
+    {"what": "i64::to_string is int_text; i64::leading_zeros is its std meaning for the one question asked (fewer than 32 leading zeros iff negative or >= 2^32); "
+             "sqlparser's Display prints Value::Number(text, long) as the text followed by `L` iff long (read in sqlparser 0.60 value.rs)",
+     "keys": ["fn i64_to_string", "fn i64_leading_zeros"]},
     common_std.STR_PREDS_ASSUMPTION,
 ]
 TRUSTED = [
@@ -52,6 +56,8 @@ pub fn parse_i64(s: &String) -> (r: Result<i64, OpaqueT>) ensures match as_i64(s
 #[verifier::external_body]
 pub fn parse_f64(s: &String) -> (r: Result<f64, OpaqueT>) ensures match as_f64(s@) { Some(v) => r == Ok::<f64, OpaqueT>(v), None => r is Err }, { unimplemented!() }
 
+#[verifier::external_body] pub fn i64_to_string(i: i64) -> (r: String) ensures r@ == int_text(i), { unimplemented!() }
+#[verifier::external_body] pub fn i64_leading_zeros(i: i64) -> (r: u32) ensures r <= 64, r < 32 <==> (i < 0 || i >= 0x1_0000_0000), { unimplemented!() }
 #[verifier::external_body] pub struct Handler { _p: u8 }
 pub struct Context { pub dialect: Box<Handler> }
 """
@@ -82,10 +88,12 @@ def build(X):
             // C08: a string literal is emitted as a single-quoted SQL string with exactly the same characters
             (l is String && r is Ok) ==> r->Ok_0 == sql_ast::Expr::Value(sql_ast::ValueWithSpan { value: Value::SingleQuotedString(l->String_0) }), // @TL1s
             (l is RawString && r is Ok) ==> r->Ok_0 == sql_ast::Expr::Value(sql_ast::ValueWithSpan { value: Value::SingleQuotedString(l->RawString_0) }), // @TL1r
-            (l is Integer && r is Ok) ==> (r->Ok_0 is Value && r->Ok_0->Value_0.value is Number && r->Ok_0->Value_0.value->Number_0@ == int_text(l->Integer_0)), // @TL1i
+            (l is Integer && r is Ok) ==> (r->Ok_0 is Value && r->Ok_0->Value_0.value is Number && r->Ok_0->Value_0.value->Number_0@ == int_text(l->Integer_0)
+                && !r->Ok_0->Value_0.value->Number_1), // @TL1i
             (l is Boolean && r is Ok) ==> r->Ok_0 == sql_ast::Expr::Value(sql_ast::ValueWithSpan { value: Value::Boolean(l->Boolean_0) }), // @TL1b
             (l is Null && r is Ok) ==> r->Ok_0 == sql_ast::Expr::Value(sql_ast::ValueWithSpan { value: Value::Null }), // @TL1n
-            (l is Float && r is Ok) ==> (r->Ok_0 is Value && r->Ok_0->Value_0.value is Number && r->Ok_0->Value_0.value->Number_0@ == float_text(l->Float_0)), // @TL1f
+            (l is Float && r is Ok) ==> (r->Ok_0 is Value && r->Ok_0->Value_0.value is Number && r->Ok_0->Value_0.value->Number_0@ == float_text(l->Float_0)
+                && !r->Ok_0->Value_0.value->Number_1), // @TL1f
     """)
 
     # ---- lexer: digits -> Literal
@@ -110,4 +118,16 @@ def build(X):
                 "{\n" + body + "\n}\n")
     num.shim_str_predicates()
     num.eta_expand_constructors()
-    return PRELUDE + lit.text + "\n" + sql_mod + tl.text + "\n" + num.text + "\n} // verus!\nfn main() {}\n"
+    # ---- expr_of_i64
+    ei = X.fn(GEN_EXPR, "expr_of_i64").pub_all()
+    ei.rewrite_re("R5", r"\bnumber\.to_string\(\)", "i64_to_string(number)", count=None, why="i64::to_string")
+    ei.rewrite_re("R5", r"\bnumber\.leading_zeros\(\)", "i64_leading_zeros(number)", count=None, why="i64::leading_zeros")
+    ei.rewrite_re("R5", r"\.into\(\)", ".with_empty_span()", count=None, why="Value -> ValueWithSpan conversion keeps the value")
+    ei.ret_name("r")
+    ei.contract("""
+        ensures
+            // C08 / C07: a row count is written as its decimal digits and nothing else (no `L` suffix: no target dialect has one)
+            r == sql_ast::Expr::Value(sql_ast::ValueWithSpan { value: Value::Number(r->Value_0.value->Number_0, false) })
+                && r->Value_0.value->Number_0@ == int_text(number), // @EI1
+    """)
+    return PRELUDE + lit.text + "\n" + sql_mod + tl.text + "\n" + num.text + "\n" + ei.text + "\n} // verus!\nfn main() {}\n"
